@@ -17,6 +17,7 @@ import (
 	"github.com/anthdm/hollywood/zzshim/context"
 	"github.com/anthdm/hollywood/zzshim/drpcconn"
 	"github.com/anthdm/hollywood/zzshim/net"
+	"github.com/anthdm/hollywood/zzshim/tls"
 )
 
 type zzNodeC17 struct {
@@ -61,7 +62,13 @@ func ZZ_C17() {
 	K := zzrt.Param("K")
 	A := &zzNodeC17{name: "node:A", ze: actor.ZZNewEngine("node:A")}
 	B := &zzNodeC17{name: "node:B", ze: actor.ZZNewEngine("node:B")}
-	A.r, B.r = New(A.name, NewConfig()), New(B.name, NewConfig())
+	cfg := NewConfig()
+	if zzrt.Param("TLS") == 1 && zzrt.Choose(2) == 1 {
+		// both nodes configured for TLS (TLS itself is not modelled, the code paths that depend on the config are)
+		cfg = cfg.WithTLS(&tls.Config{})
+		zzrt.Reach("tls-configured")
+	}
+	A.r, B.r = New(A.name, cfg), New(B.name, cfg)
 	A.ze.SetRemote(A.r)
 	B.ze.SetRemote(B.r)
 	tb := []*actor.ZZRecProc{B.ze.Register("t/0"), B.ze.Register("t/1")}
